@@ -80,4 +80,18 @@ def groundColumn (maxT minT eps droad kroad croad ksoil csoil : K) (depths : Lis
     | none => some (ls, none)
     | some (i, k) => some (ls ++ List.replicate k ⟨maxT, ksoil, csoil⟩, some i)
 
+/-- What `_compute_input` does with the road column: with at least three ground depths (the case in which
+    `simulate()` reads `Tsoil[_soilindex1]`) a column that no depth reaches is REFUSED (an exception, repair
+    b493016); with fewer depths the index is simply left unset (the deep temperature is then the window mean). -/
+inductive ColumnOutcome (K : Type) where
+  | index                                     -- IndexError inside `_procmat`
+  | refused                                   -- 'The road … is deeper than the deepest ground temperature depth'
+  | ok (ls : List (Lay K)) (idx : Option Nat)
+
+def columnOutcome (maxT minT eps droad kroad croad ksoil csoil : K) (depths : List K) : ColumnOutcome K :=
+  match groundColumn maxT minT eps droad kroad croad ksoil csoil depths with
+  | none => .index
+  | some (ls, none) => if 3 ≤ depths.length then .refused else .ok ls none
+  | some (ls, some i) => .ok ls (some i)
+
 end Uwg
